@@ -627,3 +627,28 @@ Theorem C07_fault_cut_nonvacuous :
     length (honest HO data bs q) = 5%nat.
 Proof. exact gaph_fault_cut_nonvacuous. Qed.
 Print Assumptions C07_fault_cut_nonvacuous.
+
+(* ---- collision form (Proofs/Collision.v; depends on Classical_Prop.classic and on nothing else): the idealised hypothesis
+   cv_injective is dropped; under 32-byte outputs and a correct byte comparison the conclusion holds OR the hash functions
+   have a collision between two distinct valid inputs ---- *)
+From BaoV Require Import Proofs.Collision.
+Theorem C07_inv_history_or_collision : forall (HO : hops), cv_len32 HO -> beq_correct HO ->
+  (forall (data : bytes HO) (bs : N), blen HO data <= 2 ^ 63 -> bs <= 10 ->
+  forall ops : list (op HO), Forall (fun o => wf_ranges (op_q HO o) = true) ops ->
+  forall D st, Inv HO data bs D st ->
+  exists D', Inv HO data bs D' (fold_left (hist_step HO) ops st) /\ forall c, D c = true -> D' c = true) \/
+  collision HO.
+Proof. intros HO Hl Hb. apply (or_collision HO _ Hl Hb). exact (C07_inv_history HO). Qed.
+Print Assumptions C07_inv_history_or_collision.
+
+Theorem C07_InvR_history_or_collision : forall (HO : hops), cv_len32 HO -> beq_correct HO ->
+  (forall (data : bytes HO) (bs : N), blen HO data <= 2 ^ 63 -> bs <= 10 ->
+  forall (t0 : bytes HO) (ob0 : outboard HO) (ops : list (op HO)),
+  Forall (fun o => wf_ranges (op_q HO o) = true) ops ->
+  forall (D P : N -> bool) (st : bytes HO * outboard HO), InvR HO data bs t0 ob0 D P st ->
+  exists D' P', InvR HO data bs t0 ob0 D' P' (fold_left (hist_step HO) ops st) /\
+    (forall c, D c = true -> D' c = true) /\ (forall nd, P nd = true -> P' nd = true)) \/
+  collision HO.
+Proof. intros HO Hl Hb. apply (or_collision HO _ Hl Hb). exact (C07_InvR_history HO). Qed.
+Print Assumptions C07_InvR_history_or_collision.
+
